@@ -404,10 +404,13 @@ func (c *GroupCoordinator) OffsetFetch(ctx context.Context, req *kmsg.OffsetFetc
 		topicResp.Topic = topic.Topic
 		topicResp.Partitions = make([]kmsg.OffsetFetchResponseTopicPartition, 0, len(topic.Partitions))
 		for _, partID := range topic.Partitions {
-			offset, metadataStr, err := c.store.FetchConsumerOffset(ctx, req.Group, topic.Topic, partID)
+			offset, metadataStr, found, err := c.lookupConsumerOffset(ctx, req.Group, topic.Topic, partID)
 			code := int16(protocol.NONE)
 			if err != nil {
 				code = protocol.UNKNOWN_SERVER_ERROR
+			} else if !found {
+				// Kafka protocol: a partition without a committed offset answers -1.
+				offset = -1
 			}
 			partResp := kmsg.NewOffsetFetchResponseTopicPartition()
 			partResp.Partition = partID
@@ -420,6 +423,16 @@ func (c *GroupCoordinator) OffsetFetch(ctx context.Context, req *kmsg.OffsetFetc
 		resp.Topics = append(resp.Topics, topicResp)
 	}
 	return resp, nil
+}
+
+// lookupConsumerOffset reads a committed offset and reports whether a commit exists. Stores that
+// cannot tell (no metadata.ConsumerOffsetLookup) are taken at their word.
+func (c *GroupCoordinator) lookupConsumerOffset(ctx context.Context, group, topic string, partition int32) (int64, string, bool, error) {
+	if lookup, ok := c.store.(metadata.ConsumerOffsetLookup); ok {
+		return lookup.LookupConsumerOffset(ctx, group, topic, partition)
+	}
+	offset, meta, err := c.store.FetchConsumerOffset(ctx, group, topic, partition)
+	return offset, meta, true, err
 }
 
 func (c *GroupCoordinator) DescribeGroups(ctx context.Context, req *kmsg.DescribeGroupsRequest) (*kmsg.DescribeGroupsResponse, error) {
